@@ -95,7 +95,9 @@ func pairsCmd(args []string) *rep.Result {
 		go func() {
 			defer wg.Done()
 			for j := range jobs {
-				runPair(j.l, j.pkg, &conc.Ctx{C: cp, V: cp.Variants[j.v], Seed: j.s}, j.mode, res)
+				safely(res, "pairs", &PairCase{Sub: "pairs", Line: j.l, Pkg: j.pkg.Name, Variant: j.v, Seed: j.s, Mode: j.mode}, func() {
+					runPair(j.l, j.pkg, &conc.Ctx{C: cp, V: cp.Variants[j.v], Seed: j.s}, j.mode, res)
+				})
 			}
 		}()
 	}
